@@ -6,6 +6,7 @@ import (
 	"fmt"
 	"log/slog"
 	"path/filepath"
+	"strings"
 	"sync"
 
 	"reduction.dev/reduction/connectors"
@@ -267,6 +268,16 @@ func (s *Store) CurrentCheckpoint() *snapshotpb.JobCheckpoint {
 	return nil
 }
 
+// checkpointIDFromFilePath returns the checkpoint ID encoded in the name of a
+// job snapshot file ("job-<pathSegment(id)>.snapshot").
+func checkpointIDFromFilePath(filePath string) (id uint64, ok bool) {
+	name := filepath.Base(filePath)
+	if !strings.HasPrefix(name, "job-") || filepath.Ext(name) != ".snapshot" {
+		return 0, false
+	}
+	return parsePathSegment(strings.TrimSuffix(strings.TrimPrefix(name, "job-"), ".snapshot"))
+}
+
 // LoadCheckpoint loads the latest checkpoint from disk and stores it in
 // memory.
 func (s *Store) LoadCheckpoint() error {
@@ -290,17 +301,18 @@ func (s *Store) LoadCheckpoint() error {
 			return fmt.Errorf("restore checkpoints from savepoint: %v", err)
 		}
 	} else {
-		// For a new job, check the file store for first (latest) snapshot file.
-		// Checkpoint IDs are encoded so that files will be in reverse chronological
-		// order.
+		// For a new job, check the file store for the latest snapshot file. Files
+		// of older checkpoints may still be present and the encoded file names
+		// don't list in checkpoint ID order, so pick the highest checkpoint ID.
 		var latestCheckpointFile string
+		var latestID uint64
 		for filePath, err := range s.fileStore.List() {
 			if err != nil {
 				return err
 			}
-			if filepath.Ext(filePath) == ".snapshot" {
-				latestCheckpointFile = filePath
-				break
+			id, ok := checkpointIDFromFilePath(filePath)
+			if ok && (latestCheckpointFile == "" || id > latestID) {
+				latestCheckpointFile, latestID = filePath, id
 			}
 		}
 
